@@ -117,9 +117,9 @@ def pp(e):
 
 def param_text(p):
     if isinstance(p, str):
-        if p.isidentifier():
+        if p.isidentifier() and p not in ('True', 'False', 'None'):
             return p
-        return q(p)
+        return q(p)      # a string that reads as another literal (True, 1, 2d) stays a string only if it is quoted
     return repr(p)
 
 
